@@ -397,6 +397,11 @@ func (c *evalCtx) selectField(v Value, name string) Value {
 			c.errf("no field %s in %s", name, b.Typ)
 		}
 		return b.F[i]
+	case If:
+		// an interface value whose dynamic type is a known pointer type: fields of the pointee
+		if pv, ok := b.DynVal.(Ptr); ok {
+			return c.selectField(pv, name)
+		}
 	}
 	c.errf("field %s of %T", name, v)
 	return nil
@@ -768,6 +773,8 @@ func (c *evalCtx) callExpr(n *ast.CallExpr) Value {
 			r = vv.R
 		case Ptr:
 			r = vv.R
+		case If:
+			r = vv.Pl
 		default:
 			c.errf("fresh of %T", v)
 		}
@@ -849,6 +856,28 @@ func (c *evalCtx) callExpr(n *ast.CallExpr) Value {
 	case "errtag":
 		// errtag(e): dynamic type tag of an interface value
 		return Sc{c.rv(c.eval(arg(0))).(If).Tag}
+	case "strdata":
+		// strdata(s): the bytes of string s as a byte sequence
+		sv := c.term(arg(0))
+		declareFun("strlen", "(declare-fun strlen (Int) Int)")
+		declareFun("strbytes", "(declare-fun strbytes (Int) (Array Int Int))")
+		return Sl{Arr: App("strbytes", SArr, sv), O: Int(0), L: App("strlen", SInt, sv), C: App("strlen", SInt, sv), R: Int(-2), Elem: types.Typ[types.Uint8]}
+	case "strcat":
+		declareFun("strcat", "(declare-fun strcat (Int Int) Int)")
+		return Sc{App("strcat", SInt, c.term(arg(0)), c.term(arg(1)))}
+	case "asptr":
+		// asptr(x, "*T"): the pointer held by interface value x, viewed as *T (the caller states the dynamic type separately)
+		iv, ok := c.rv(c.eval(arg(0))).(If)
+		if !ok {
+			c.errf("asptr: not an interface value")
+		}
+		name, _ := strconv.Unquote(arg(1).(*ast.BasicLit).Value)
+		t := c.x.p.lookupType(name)
+		if t == nil {
+			c.errf("asptr: unknown type %s", name)
+		}
+		pt := t.Underlying().(*types.Pointer)
+		return Ptr{R: iv.Pl, I: Int(0), Root: pt.Elem(), Elem: pt.Elem()}
 	case "implements":
 		// implements(x, "pkg.Iface"): the dynamic type of interface value x implements the named interface
 		iv, ok := c.rv(c.eval(arg(0))).(If)
